@@ -209,7 +209,9 @@ CLAIMS = {
              "down, never returned; kernel-checked in the property's terms: each query of a series answers as alone (also after failing "
              "ones), operands share the caller's context, a predicate cannot change its caller's position/size, parse is deterministic. "
              "Tie: sequences of 3-9 queries incl. failures at top level and inside predicates on ONE real context vs fresh contexts, "
-             "serialization unchanged by querying, every text parsed and printed twice.",
+             "serialization unchanged by querying, every text parsed and printed twice; every query also ALONE on a document parsed for "
+             "it (what an earlier query leaves in the document), DOM histories with and without queries in between, the same text read "
+             "twice compared with ==.",
         note="The theorems are largely by construction (a Lean function has no hidden state); the content is that the code behaves like such a "
              "function, which only the tie can show. Trusted: Lean kernel, harness `query`/`qfresh`.",
         technique="Lean 4 proof (functional model) + differential correspondence re-used vs fresh context",
@@ -225,8 +227,9 @@ CLAIMS = {
              "(`one_element_one_doctype`, second invariant `DocInv`). Monitor (the deciding part for the real code's REDUNDANT state - "
              "child vectors, parent ids, id map): after every step of every history, for every live node, parent_node vs child_nodes, "
              "first/last child, previous/next sibling, has_child, no node twice or beneath itself, detached roots without parent, at "
-             "most one document element/doctype, read from the real navigation views. Tie: status and tree dump equal the model's "
-             "after every step.",
+             "most one document element/doctype, read from the real navigation views; NodeLists and attribute maps obtained when a node "
+             "was first seen are read again after every step (second handles are live). Tie: status and tree dump equal the model's "
+             "after every step; when the tie breaks, the disagreeing histories are continued under the monitors (search step).",
         note="The theorems are about the model's single forest; the code's redundant representation is tied per run (monitor + dump). "
              "`OneRoot d` (at most one element and one document type at top level) is proved for every document the model's parser "
              "delivers (`parsed_is_oneRoot`: the element half from `absDocument`, the document-type half by inversion of the derivation "
